@@ -28,7 +28,7 @@ func init() {
 		Run:     run,
 		Rule: "cases: C05's path generator (paths not ending in a bare descent) and slice/index/union lattice over unique-leaf trees; for each (path, data): Has vs len(Get)>0, First/FirstFound vs Get's members (and Get[0] when J's order is total), " +
 			"Locate(data,0) and Expr.Walk vs the normalized paths whose individual Get gives Get's results, Locate(data,m) as a size-m subset, GetNodes/FirstNode on the gen twin, and Get on equivalent representations " +
-			"(typed slices and arrays, structs built with reflect.StructOf reached by reflection, harness-defined ordered Keyed/Indexed collections). also magnitudes at and near the int limits in slices, indexes and unions; where the order of Get's results is defined GetNodes must deliver the same sequence and FirstNode its first element. non-trivial: Get selects at least one element; distinct: lattice points by construction, random cases by digest",
+			"(typed slices and arrays, structs built with reflect.StructOf reached by reflection, harness-defined ordered Keyed/Indexed collections). also magnitudes at and near the int limits in slices, indexes and unions; where the order of Get's results is defined GetNodes must deliver the same sequence and FirstNode its first element. First/FirstFound/Has are also evaluated on the gen twin. non-trivial: Get selects at least one element; distinct: lattice points by construction, random cases by digest",
 		Assumptions: []string{
 			"ojg's Get on map[string]any/[]any data is the pivot (pinned to J by C05)",
 			"order is compared only where it is defined (array traversal, union listing); struct and map wildcard order is not compared",
